@@ -187,6 +187,9 @@ class TextRenderer(BaseRenderer):
         """
 
         parts, width = self._draw_singleq_gate("M")
+        if measurement.classical_store is None:
+            # the result is not stored: the box only, no link
+            return parts, width
         top_frame, mid_frame, bot_frame = parts
 
         # adjust top_frame or bottom according the placement of the classical wire
@@ -407,12 +410,15 @@ class TextRenderer(BaseRenderer):
 
             # generate the parts, width and wire_list for the gates
             if isinstance(gate, Measurement):
-                wire_list = list(range(gate.targets[0] + 1)) + list(
-                    range(
-                        gate.classical_store + self._qwires,
-                        self._qwires + self._cwires,
+                if gate.classical_store is None:
+                    wire_list = gate.targets
+                else:
+                    wire_list = list(range(gate.targets[0] + 1)) + list(
+                        range(
+                            gate.classical_store + self._qwires,
+                            self._qwires + self._cwires,
+                        )
                     )
-                )
                 parts, width = self._draw_measurement_gate(gate)
             elif len(gate.targets) == 1 and gate.controls is None:
                 wire_list = gate.targets
@@ -435,7 +441,8 @@ class TextRenderer(BaseRenderer):
 
             if isinstance(gate, Measurement):
                 self._update_singleq(gate.targets, parts)
-                self._update_cbridge(gate, wire_list, width)
+                if gate.classical_store is not None:
+                    self._update_cbridge(gate, wire_list, width)
             elif len(gate.targets) == 1 and gate.controls is None:
                 self._update_singleq(wire_list, parts)
             elif gate.name == "SWAP":
